@@ -5,7 +5,7 @@ from collections import defaultdict
 
 
 class Body:
-    __slots__ = ("j", "id", "name", "kind", "root", "blocks", "locals", "arg_count", "facts", "_tupdefs",
+    __slots__ = ("j", "id", "name", "kind", "root", "blocks", "locals", "arg_count", "facts", "_tupdefs", "upvar_locals",
                  "_succ", "_pred", "_dom", "_pdom", "_cd", "_div", "_reach_ret")
 
     def __init__(self, j, facts):
@@ -18,6 +18,7 @@ class Body:
         self.blocks = j["blocks"]
         self.locals = j["locals"]
         self.arg_count = j["arg_count"]
+        self.upvar_locals = {}
         self._tupdefs = None
         self._succ = None
         self._pred = None
@@ -262,6 +263,77 @@ class Facts:
             if b.kind == "Closure":
                 self._closures_of[b.j.get("parent")].append(b.id)
         self._callees = {}
+        self._split_upvars()
+
+    def _split_upvars(self):
+        """give every captured variable of a closure a local of its own: `(*_1).k` / `_1.k` (the k-th field of the
+        closure environment) is rewritten to a fresh local U_k that inherits type and flags from the operand of the
+        closure aggregate in the creating body. The graph binds operand k to U_k, so captures are not merged."""
+        creators = {}
+        for b in self.bodies.values():
+            for blk in b.blocks:
+                for st in blk["stmts"]:
+                    rv = st["rv"]
+                    if rv.get("k") == "agg" and rv.get("closure"):
+                        creators.setdefault(rv["closure"], []).append((b, rv["ops"]))
+        for b in self.bodies.values():
+            if b.kind != "Closure" or len(b.locals) < 2:
+                continue
+            made = {}
+
+            def fix(pl):
+                if not isinstance(pl, dict) or pl.get("l") != 1:
+                    return
+                p = pl["p"]
+                i = 0
+                while i < len(p) and p[i] == "*":
+                    i += 1
+                if i > 1 or i >= len(p) or not isinstance(p[i], dict) or "f" not in p[i] or p[i].get("adt") is not None:
+                    return
+                k = p[i]["f"]
+                if k not in made:
+                    ty = p[i].get("ty")
+                    loc = {"ty": ty, "copy": bool(ty) and ty.startswith("&") and not ty.startswith("&mut"),
+                           "mutb": not (bool(ty) and ty.startswith("&") and "&mut" not in ty), "upvar": k}
+                    cr = creators.get(b.id, [])
+                    if len(cr) == 1 and k < len(cr[0][1]):
+                        op = cr[0][1][k]
+                        if op["k"] in ("copy", "move") and not op["pl"]["p"]:
+                            src = cr[0][0].locals[op["pl"]["l"]]
+                            for key in ("copy", "mutb", "bounds", "rng", "closure", "adt"):
+                                if key in src:
+                                    loc[key] = src[key]
+                            if src.get("name"):
+                                loc["name"] = src["name"]
+                    names = b.j.get("upvar_names") or []
+                    for kk, nm in names:
+                        if kk == k and "name" not in loc:
+                            loc["name"] = nm
+                    b.locals.append(loc)
+                    made[k] = len(b.locals) - 1
+                pl["l"] = made[k]
+                pl["p"] = p[i + 1:]
+
+            for blk in b.blocks:
+                for st in blk["stmts"]:
+                    fix(st["dst"])
+                    rv = st["rv"]
+                    if "pl" in rv:
+                        fix(rv["pl"])
+                    for o in rv.get("ops", []):
+                        if o.get("k") in ("copy", "move"):
+                            fix(o["pl"])
+                t = blk["term"]
+                if "dst" in t:
+                    fix(t["dst"])
+                for a in t.get("args", []):
+                    if a.get("k") in ("copy", "move"):
+                        fix(a["pl"])
+                if isinstance(t.get("op"), dict) and t["op"].get("k") in ("copy", "move"):
+                    fix(t["op"]["pl"])
+                if isinstance(t.get("pl"), dict):
+                    fix(t["pl"])
+            b.upvar_locals = made
 
     # ---------- lookup
     def find(self, name, self_adt=None, trait=None, in_trait=None, free_path=None):
